@@ -39,7 +39,7 @@ fn main() {
     main_for("C18", body)
 }
 
-const NG: usize = 6; // glyphs in every base font
+const NG: usize = 6; // glyphs in the base fonts of most families (BaseSpec::lens decides)
 const LIMIT_SHORT: usize = 0x1FFFE;
 
 // ---------------------------------------------------------------------------
@@ -360,7 +360,7 @@ pub fn build_base(spec: &BaseSpec) -> RefFont {
     )
     .unwrap();
     let maxp = Maxp {
-        num_glyphs: NG as u16,
+        num_glyphs: spec.lens.len() as u16,
         ..Default::default()
     };
     let head = Head {
@@ -872,7 +872,7 @@ pub fn build_scenario(sc: &Scenario, ids: &[u32]) -> Built {
             }
         }
         Mapping::F1 => {
-            let mut entry_index = vec![0u16; NG - 1];
+            let mut entry_index = vec![0u16; sc.base.lens.len() - 1];
             for i in 0..n {
                 entry_index[i] = i as u16 + 1;
             }
@@ -880,7 +880,7 @@ pub fn build_scenario(sc: &Scenario, ids: &[u32]) -> Built {
                 compat: COMPAT_IFT,
                 max_entry_index: n as u16,
                 max_glyph_map_entry_index: n as u16,
-                glyph_count: NG as u32,
+                glyph_count: sc.base.lens.len() as u32,
                 first_mapped_glyph: 1,
                 entry_index,
                 feature_map: None,
@@ -1537,6 +1537,7 @@ fn body(run: &Run, replay: Option<&Value>) {
     space_real(&ctx);
     space_corrupt(&ctx);
     space_declared(&ctx);
+    space_gid_pages(&ctx);
     space_unsorted(&ctx);
     if run.tier == Tier::Thorough {
         space_four(&ctx);
@@ -2998,4 +2999,77 @@ fn space_declared(ctx: &Ctx) {
         run_decl(ctx, c, &mut l);
     }
     ctx.merge(l);
+}
+
+
+/// Base fonts with 1100 tiny glyphs; patched glyph ids from the 512-value page boundary alphabet of
+/// the glyph-id sets the client keeps (replaced / retained ranges): all pairs, and the triples that
+/// contain 511 or 1023, as one patch and split over two patches (every order, one call or two).
+fn space_gid_pages(ctx: &Ctx) {
+    let run = ctx.run;
+    let thorough = run.tier == Tier::Thorough;
+    const N: usize = 1100;
+    let alpha: [u32; 10] = [0, 1, 510, 511, 512, 513, 1023, 1024, 1025, N as u32 - 1];
+    let mut sets: Vec<Vec<u32>> = vec![];
+    for i in 0..alpha.len() {
+        for j in i + 1..alpha.len() {
+            sets.push(vec![alpha[i], alpha[j]]);
+            for k in j + 1..alpha.len() {
+                let t = vec![alpha[i], alpha[j], alpha[k]];
+                if t.contains(&511) || t.contains(&1023) {
+                    sets.push(t);
+                }
+            }
+        }
+    }
+    let kinds: Vec<(BaseKind, u8)> = if thorough {
+        vec![(BaseKind::GlyfLong, 0), (BaseKind::GvarShort, 0), (BaseKind::GvarLong, 0), (BaseKind::Cff, 2), (BaseKind::Cff2, 2)]
+    } else {
+        vec![(BaseKind::GlyfLong, 0), (BaseKind::GvarShort, 0)]
+    };
+    let mut scenarios = vec![];
+    for (kind, off_size) in kinds {
+        let short = matches!(kind, BaseKind::GvarShort);
+        let spec = BaseSpec {
+            kind,
+            lens: (0..N).map(|g| if short { (g % 2) * 2 } else { g % 3 }).collect(),
+            off_size,
+            gvar_tuples_last: false,
+        };
+        let tables = &tables_for(kind)[0];
+        for s in &sets {
+            scenarios.push(Scenario {
+                base: spec.clone(),
+                mapping: Mapping::F2,
+                patches: vec![gk_patch(0, s, tables, s.len() == 3, COMPAT_IFT)],
+                note: "gid-pages-single".into(),
+                real_brotli: false,
+            });
+            // every split of the set into two non-empty patches (the tape supplies both orders and groupings)
+            for mask in 1u32..(1 << s.len()) - 1 {
+                if mask & 1 == 0 {
+                    continue; // the complement split is the same pair of patches
+                }
+                let a: Vec<u32> = s.iter().enumerate().filter(|(i, _)| mask & (1 << i) != 0).map(|(_, g)| *g).collect();
+                let b: Vec<u32> = s.iter().enumerate().filter(|(i, _)| mask & (1 << i) == 0).map(|(_, g)| *g).collect();
+                scenarios.push(Scenario {
+                    base: spec.clone(),
+                    mapping: Mapping::F2,
+                    patches: vec![gk_patch(0, &a, tables, false, COMPAT_IFT), gk_patch(0, &b, tables, true, COMPAT_IFT)],
+                    note: "gid-pages-split".into(),
+                    real_brotli: false,
+                });
+            }
+        }
+    }
+    run.count("gid_page_boundary_scenarios", scenarios.len() as u64);
+    run.bound("gid_page_boundary_alphabet", json!(alpha));
+    run.bound("gid_page_boundary_glyphs", json!(N));
+    run.sample(json!({"space":"gid-pages","gids": scenarios[3].patches[0].gids, "kind": format!("{:?}", scenarios[3].base.kind)}));
+    let scenarios = &scenarios;
+    par_for(scenarios.len(), |i| {
+        let mut l = Local::default();
+        explore_scenario(ctx, &scenarios[i], &mut l);
+        ctx.merge(l);
+    });
 }
